@@ -310,6 +310,7 @@ func aggEngine(r *core.Run) {
 		r.Set("large_universe_size", len(ul))
 	}
 	// (a) all multisets of size <= 3 in all orders
+	halfTriples := r.Quick() && r.Prop == "C05"
 	core.Parallel(n, workers(), func(i int) {
 		aggEvalMultiset(r, uname, []int{i}, false)
 		cnt := 1
@@ -317,6 +318,9 @@ func aggEngine(r *core.Run) {
 			aggEvalMultiset(r, uname, []int{i, j}, true)
 			cnt++
 			for k := j; k < n; k++ {
+				if halfTriples && (i+j+k)%2 != int(r.Seed%2+2)%2 {
+					continue // C05's quick tier: every other triple, which half depends on the seed
+				}
 				// triples: all orders for a deterministic third of them, canonical order otherwise
 				aggEvalMultiset(r, uname, []int{i, j, k}, (i+j+k)%3 == int(r.Seed%3+3)%3)
 				cnt++
@@ -342,7 +346,7 @@ func aggEngine(r *core.Run) {
 		}
 		r.DistinctN(cnt)
 	})
-	r.Exhaustive(true)
+	r.Exhaustive(!halfTriples)
 	// (b) large random snapshots
 	nb := r.N(60, 1500)
 	core.Parallel(nb, workers(), func(i int) {
